@@ -139,7 +139,7 @@ pub fn c14_native_components() {
         if state.populations().len() != 1 || !state.populations().current().is_empty() { panic!("Empty must push exactly one empty population") }
     }
     // ---- boundary-repair components: grid of coordinates relative to each domain (inside, on the bounds, outside near and far)
-    let rel = [-1.0e6, -37.25, -2.0, -1.0, -0.5, -1.0e-9, 0.0, 1.0e-9, 0.25, 0.5, 1.0 - 1.0e-9, 1.0, 1.0 + 1.0e-9, 1.5, 2.0, 3.0, 41.75, 1.0e6];
+    let rel = [-1.0e6, -37.25, -4.75, -3.5, -2.5, -2.0, -1.5, -1.25, -1.0, -0.5, -1.0e-9, 0.0, 1.0e-9, 0.25, 0.5, 1.0 - 1.0e-9, 1.0, 1.0 + 1.0e-9, 1.5, 2.0, 2.25, 2.5, 3.0, 3.5, 4.75, 41.75, 1.0e6];
     for d in &domains {
         let p = Boxed(d.clone());
         let pop: Vec<Vec<f64>> = rel.iter().map(|t| d.iter().map(|r| r.start + t * (r.end - r.start)).collect()).collect();
